@@ -6,6 +6,7 @@ import IncanModel.Driver.C09
 import IncanModel.Driver.C10
 import IncanModel.Driver.C14
 import IncanModel.Driver.C15
+import IncanModel.Driver.C16
 import IncanModel.Driver.C18
 import IncanModel.Driver.C19
 
@@ -21,6 +22,7 @@ def dispatch (line : String) : String :=
   | "c10" :: rest => handleC10 rest
   | "c14" :: rest => handleC14 rest
   | "c15" :: rest => handleC15 rest
+  | "c16" :: rest => handleC16 rest
   | "c18" :: rest => handleC18 rest
   | "c19" :: rest => handleC19 rest
   | "c11" :: rest => handleC19 rest
